@@ -150,7 +150,7 @@ def rand_index(rng, w, valid_bias=0.85):
     return {"s": s, "e": e, "st": st}
 
 
-LEAVES = [("sig", "a"), ("sig", "b"), ("pref", "i0.q"), ("bref", "bb.s")]
+LEAVES = [("sig", "a"), ("sig", "b"), ("pref", "i0.q"), ("bref", "bb.s"), ("bref", "bb.sub.s")]
 
 
 def rand_tree(rng, depth, widths):
@@ -196,7 +196,7 @@ def py_bits(t):
 
 
 def model_name(leaf):
-    return {"a": "a", "b": "b", "i0.q": "i0_q", "bb.s": "bb_s"}[leaf["n"]]
+    return {"a": "a", "b": "b", "i0.q": "i0_q", "bb.s": "bb_s", "bb.sub.s": "bb_sub_s"}[leaf["n"]]
 
 
 def to_model(t):
@@ -224,9 +224,15 @@ def build_and_export(case):
     """Build the real design around the tree, export it, read back the bits on the sink port."""
     t, widths = case["tree"], case["widths"]
 
+    # (a member of a sub-bundle called like a member of the bundle itself, of another width)
+    @h.bundle
+    class Sub:
+        s = h.Signal(width=widths.get("bb.sub.s", 1))
+
     @h.bundle
     class B:
         s = h.Signal(width=widths["bb.s"])
+        sub = Sub()
 
     src = h.Module(name="Src")
     src.q = h.Port(width=widths["i0.q"])
@@ -238,7 +244,9 @@ def build_and_export(case):
 
     def mk(t):
         if t["k"] == "leaf":
-            return {"a": m.a, "b": m.b}[t["n"]] if t["kind"] == "sig" else (m.i0.q if t["kind"] == "pref" else m.bb.s)
+            if t["kind"] == "bref":
+                return m.bb.s if t["n"] == "bb.s" else m.bb.sub.s
+            return {"a": m.a, "b": m.b}[t["n"]] if t["kind"] == "sig" else m.i0.q
         if t["k"] == "slice":
             return mk(t["p"])[idx_py(t["i"])]
         return h.Concat(*[mk(p) for p in t["ps"]])
@@ -292,13 +300,33 @@ def pair_family(w):
             yield {"tree": t2, "widths": widths, "sinkw": len(b2)}
 
 
+def stride_family(ws=(6, 7)):
+    """Exhaustive: every int index and unit-step range (incl. out-of-range ones) of a strided or offset parent slice of a
+    wide signal and of a deep bundle member — `a[0:8:2][1:3]`, `a[2:5][3]`, `bb.sub.s[1::2][-1]`."""
+    for w in ws:
+        widths = {"a": w, "b": 1, "i0.q": 1, "bb.s": 2, "bb.sub.s": w}
+        for leafname, kind in (("a", "sig"), ("bb.sub.s", "bref")):
+            leaf = {"k": "leaf", "kind": kind, "n": leafname, "w": w}
+            parents = [{"s": s_, "e": e_, "st": st} for st in (2, 3, -2, -3, None) for s_ in (None, 0, 1, 2) for e_ in (None, w - 1)]
+            for pidx in parents:
+                pb = py_select(w, slice(pidx["s"], pidx["e"], pidx["st"]))
+                if not pb or len(pb) < 2 or (pidx["st"] is None and pidx["s"] in (None, 0)):
+                    continue
+                pw = len(pb)
+                kids = [{"i": i} for i in range(-pw - 1, pw + 2)] + [{"s": s_, "e": e_, "st": None} for s_ in range(0, pw) for e_ in range(s_ + 1, pw + 2)]
+                for cidx in kids:
+                    t = {"k": "slice", "p": {"k": "slice", "p": leaf, "i": pidx}, "i": cidx}
+                    b = py_bits(t)
+                    yield {"tree": t, "widths": widths, "sinkw": len(b) if b else 1}
+
+
 def stream_b(ctx):
     rep, rng = ctx.rep, ctx.rng
     n = 400 if ctx.quick else 6000
-    cases = list(pair_family(3)) + ([] if ctx.quick else list(pair_family(4)))
+    cases = list(pair_family(3)) + ([] if ctx.quick else list(pair_family(4))) + list(stride_family((6,) if ctx.quick else (6, 7)))
     rep.extra["pair_family"] = len(cases)
     for k in range(n):
-        widths = {"a": rng.randint(1, 5), "b": rng.randint(1, 4), "i0.q": rng.randint(1, 4), "bb.s": rng.randint(1, 4)}
+        widths = {"a": rng.randint(1, 5), "b": rng.randint(1, 4), "i0.q": rng.randint(1, 4), "bb.s": rng.randint(1, 4), "bb.sub.s": rng.randint(1, 6)}
         t = rand_tree(rng, rng.choice([1, 2, 2, 3, 3]), widths)
         bits = py_bits(t)
         cases.append({"tree": t, "widths": widths, "sinkw": len(bits) if bits else 1})
